@@ -738,6 +738,36 @@ func (t *taintCtx) source(fi *core.FuncInfo, e ast.Expr, depth int) string {
 				return sel.Sel.Name
 			}
 		}
+		// a helper of the module that hands back a wide count it read (in.readArrayLen())
+		if fn := calleeFunc(info, v); fn != nil && depth < 6 {
+			if cf := t.p.FuncOf(fn); cf != nil && cf.Decl.Body != nil {
+				readsStream := false
+				for _, a := range v.Args {
+					if at := info.TypeOf(a); at != nil && t.x.IsIn(at) {
+						readsStream = true
+					}
+				}
+				if sel, ok := v.Fun.(*ast.SelectorExpr); ok {
+					if tv, ok := info.Types[sel.X]; ok && t.x.IsIn(tv.Type) {
+						readsStream = true
+					}
+				}
+				if readsStream {
+					src := ""
+					ast.Inspect(cf.Decl.Body, func(m ast.Node) bool {
+						if rs, ok := m.(*ast.ReturnStmt); ok && len(rs.Results) == 1 && src == "" {
+							if s := t.source(cf, rs.Results[0], depth+3); s != "" {
+								src = s + " (through " + fn.Name() + ")"
+							}
+						}
+						return true
+					})
+					if src != "" {
+						return src
+					}
+				}
+			}
+		}
 	case *ast.BinaryExpr:
 		if s := t.source(fi, v.X, depth+1); s != "" {
 			return s
